@@ -61,29 +61,32 @@ def observe(text, assign, inputs):
                    [("rr", c.state.state_id, c.term.name,
                      [p.prod_id for p in c.productions]) for c in tab.rr_conflicts]
             out.append([hashlib.sha256(ser.encode()).hexdigest()[:16], conf])
-    # forests: order of trees
-    g = grammar_from_string(text)
-    if assign:
-        for name, h in assign.items():
-            t = g.terminals.get(name)
-            if t is not None:
-                t._hash = h
-    try:
-        p = build("glr", g, MON, ws="")
-        for s in inputs:
-            o = parse(p, s, MON)
-            if o.kind == "ok":
-                fv = ForestView(o.value.result)
-                if fv.cyclic:
-                    out.append("cyclic")
+    # forests: order of trees; with consume_input=False several accepted
+    # heads feed the forest root
+    for extra in ({}, {"consume_input": False}):
+        g = grammar_from_string(text)
+        if assign:
+            for name, h in assign.items():
+                t = g.terminals.get(name)
+                if t is not None:
+                    t._hash = h
+        try:
+            p = build("glr", g, MON, ws="", **extra)
+            for s in (inputs if not extra else [x for x in inputs
+                                                  if len(x) <= 2]):
+                o = parse(p, s, MON)
+                if o.kind == "ok":
+                    fv = ForestView(o.value.result)
+                    if fv.cyclic:
+                        out.append("cyclic")
+                    else:
+                        n = fv.count()
+                        out.append([o.value[i].to_str()
+                                    for i in range(min(n, 12))] + [str(n)])
                 else:
-                    n = fv.count()
-                    out.append([o.value[i].to_str() for i in range(min(n, 12))]
-                               + [str(n)])
-            else:
-                out.append(o.kind)
-    except BudgetExceeded:
-        out.append("budget")
+                    out.append(o.kind)
+        except BudgetExceeded:
+            out.append("budget")
     return hashlib.sha256(json.dumps(out).encode()).hexdigest()[:16]
 
 
